@@ -8,8 +8,9 @@ from .gtext import inv, cigar_complement, cigar_reflen, cigar_qlen
 
 ALPHA_NAMES = ["A", "B", "C", "D", "E1", "F", "g", "hh", "s1", "s2", "s3", "x", "y", "z9"]
 INT_NAMES = ["1", "2", "3", "7", "12", "40", "5", "9"]
-WEIRD1_NAMES = ["a*2", "b.1", "c_d", "k:1", "m*3", "q!", "r#2", "t~"]
-WEIRD2_NAMES = ["a*2", "b.1", "c_d", "k:1", "m*3", "q!", "r#2", "t~"]
+# includes identifiers that look like tags (valid names in both versions)
+WEIRD1_NAMES = ["a*2", "b.1", "c_d", "k:1", "m*3", "q!", "r#2", "t~", "c1:a:17", "ab:Z:x"]
+WEIRD2_NAMES = ["a*2", "b.1", "c_d", "k:1", "m*3", "q!", "r#2", "t~", "c1:a:17", "ab:Z:x"]
 
 TAG_NAMES = ["xa", "xb", "xc", "ya", "yb", "zz", "aa", "ab", "c1", "d2", "Xq", "Yz"]
 TAGTYPES = "AifZJHB"
@@ -107,7 +108,7 @@ def gen_cigar(rng, style, maxref, maxq, gfa2=False):
         return "*"
     if style == "match":
         return "%dM" % rng.randint(1, min(maxref, maxq, 9))
-    codes = "MIDP" if (gfa2 or style == "asym") else "MIDP=XH"
+    codes = "MIDP" if (gfa2 or style == "asym") else ("MIDP=XHSN" if style == "allsn" else "MIDP=XH")
     for _ in range(20):
         n = rng.randint(1, 4)
         ops = []
@@ -422,7 +423,7 @@ def gen_gfa2(rng, k):
     for _ in range(rng.randint(0, k.get("max_ogroup", 2))):
         if not spare:
             break
-        pool = segs + enames + (onames if k.get("nest", True) else [])
+        pool = segs + enames + (onames if k.get("nest", True) else []) + (gnames if rng.random() < 0.4 else [])
         items = [rng.choice(pool) + rng.choice("+-") for _ in range(rng.randint(1, 4))]
         oid = spare.pop() if rng.random() < 0.85 else "*"
         if oid != "*":
